@@ -440,7 +440,7 @@ func checkRateValuesOrder(list interface{}) error {
 			continue
 		}
 		if date != nil && date.IsValid() {
-			if v.Since.IsValid() && !v.Since.Before(date.Date) {
+			if v.Since != nil && v.Since.IsValid() && !v.Since.Before(date.Date) {
 				return errors.New("invalid date order")
 			}
 		}
